@@ -41,6 +41,8 @@ class Lockstep:
         self.keep = keep_snapshots
         self.steps: list[Step] = []
         self.nref = 0
+        self.model_on = True     # switched off after the first divergence: the rest of the history
+                                 # still runs on the implementation, for the monitors
         for line in self.dev.wire_lines():
             r = self.drv.ask(line)
             if r != "ok":
@@ -70,6 +72,13 @@ class Lockstep:
         st = Step(op)
         self.nref += 1
         st.pre = self.last_real_snap
+        if not self.model_on:
+            st.real = self.real.apply(op)
+            st.model = None
+            st.post = self.real.snapshot()
+            self.last_real_snap = st.post
+            self.steps.append(st)
+            return st
         st.wire = self.real.wire(op, self.nref)  # uses the real PRE-state (oracle fields)
         m = self.model_op(st.wire)
         if m.startswith("bad"):
